@@ -69,6 +69,8 @@ type c24Obs struct {
 
 type c24 struct{}
 
+var c24Rechecks int
+
 func init() { register("C24", c24{}) }
 
 // ---------------------------------------------------------------- generation
@@ -224,8 +226,12 @@ func c24GoVal(v any) c24Val {
 
 func c24Quote(s string) string { return "'" + s + "'" }
 
-func c24Observe(c c24Case) c24Obs {
+func c24Observe(c c24Case, slow bool) c24Obs {
 	var o c24Obs
+	pfTimeout, abTimeout := 3*time.Second, 4*time.Second
+	if slow {
+		pfTimeout, abTimeout = 15*time.Second, 25*time.Second
+	}
 	flagMap := map[string]string{}
 	for _, kv := range c.Table {
 		flagMap[kv[0]] = kv[1]
@@ -297,7 +303,7 @@ func c24Observe(c c24Case) c24Obs {
 	select {
 	case r := <-ch:
 		o.Pf, o.Flags, o.Add = r.kind, r.flags, r.add
-	case <-time.After(3 * time.Second):
+	case <-time.After(pfTimeout):
 		o.Pf = "hang"
 	}
 	// 3. through `args` inside a function
@@ -311,7 +317,7 @@ func c24Observe(c c24Case) c24Obs {
 	if o.Pf == "hang" {
 		return o // ParseFlags loops for ever: do not start another spinning goroutine
 	}
-	r := RunMurex(block, 4*time.Second)
+	r := RunMurex(block, abTimeout)
 	o.Raw = r.Stdout
 	if r.Timeout {
 		return o
@@ -363,15 +369,20 @@ func (c24) Child(args []string) {
 	if err := json.NewDecoder(os.Stdin).Decode(&c); err != nil {
 		die("C24 child: %v", err)
 	}
-	o := c24Observe(c)
+	o := c24Observe(c, len(args) > 0 && args[0] == "slow")
 	b, _ := json.Marshal(o)
 	os.Stdout.Write(b)
 	os.Stdout.Write([]byte("\n"))
 	os.Exit(0)
 }
 
-func c24ViaChild(raw json.RawMessage) c24Obs {
+func c24ViaChild(raw json.RawMessage, slow bool) c24Obs {
 	cmd := exec.Command(os.Args[0], "child", "C24")
+	limit := 25 * time.Second
+	if slow {
+		cmd = exec.Command(os.Args[0], "child", "C24", "slow")
+		limit = 90 * time.Second
+	}
 	cmd.Stdin = bytes.NewReader(raw)
 	var out bytes.Buffer
 	cmd.Stdout = &out
@@ -382,7 +393,7 @@ func c24ViaChild(raw json.RawMessage) c24Obs {
 	go func() { done <- cmd.Wait() }()
 	select {
 	case <-done:
-	case <-time.After(20 * time.Second):
+	case <-time.After(limit):
 		cmd.Process.Kill()
 		<-done
 	}
@@ -416,10 +427,18 @@ func (c24) Run(raw json.RawMessage) Result {
 	}
 	var o c24Obs
 	cyc := c24HasCycle(c.Table)
-	if cyc {
-		o = c24ViaChild(raw)
-	} else {
-		o = c24Observe(c)
+	observe := func(slow bool) c24Obs {
+		if cyc {
+			return c24ViaChild(raw, slow)
+		}
+		return c24Observe(c, slow)
+	}
+	o = observe(false)
+	// a hang may be an overloaded machine: look again with generous timeouts (a real
+	// hang is deterministic, so only the first few are double-checked)
+	if (o.Pf == "hang" || o.Ab == "failed") && c24Rechecks < 12 {
+		c24Rechecks++
+		o = observe(true)
 	}
 	var tbl []string
 	for _, kv := range c.Table {
